@@ -1,5 +1,5 @@
 //verif:pkg pkg/filetracker
-//verif:assume offsets >= 0, lengths >= 1 (no caller exists: TFile.WriteAt is a stub; the obvious precondition), offset+length <= 255+64 so no int64 overflow
+//verif:assume offsets >= 0, lengths >= 1 (no caller exists: TFile.WriteAt is a stub; the obvious precondition); sequence and step harnesses: offset+length <= 255+64 (keys differ in their last two bytes only)
 //verif:assume go-immutable-radix executed from source; sync.Mutex modelled
 //verif:cover VerifC22Seq writes-done overlap-left adjacent nested
 //verif:cover VerifC22Step three-ranges merged-two
